@@ -1454,6 +1454,15 @@ func c03PlainFraming(c *Ctx) {
 			case err != nil && nn == 0:
 				outs = append(outs, "refused")
 				closed = true
+				raw.mu.Lock()
+				var last []byte
+				if len(raw.out) > 0 {
+					last = raw.out[len(raw.out)-1]
+				}
+				raw.mu.Unlock()
+				if bytes.HasPrefix(last, []byte("HTTP/1.1 4")) {
+					outs[len(outs)-1] = "refused-answered" // an HTTP error response was written before the connection was closed
+				}
 				if !raw.isClosed() {
 					outs[len(outs)-1] = "refused-but-open"
 				}
@@ -1485,7 +1494,7 @@ func c03PlainFraming(c *Ctx) {
 		// whose response has not been written) are handed on by the connection
 		mo, io := strings.Fields(m), strings.Fields(impls[i])
 		for k := 0; k < len(mo) && k < len(io); k++ {
-			if mo[k] == "refused" && io[k] == "ok" {
+			if strings.HasPrefix(mo[k], "refused") && io[k] == "ok" {
 				c.Violate("plaintext bytes that follow a complete request are accepted before its response was written (they are served after the response — after a pair-verify finish: as if they had arrived encrypted)", c.CaseID("plain", i),
 					map[string]interface{}{"events (r = raw read, hex; i = interim response 100 Continue written; w = response written)": ins[i], "accepted_event_index": k}, "refused, connection closed", "accepted")
 				break
